@@ -13,7 +13,9 @@ table, candidate list and store whose ids do not exceed the counter:
 * `tie_apply_model`: `sort_apply_winners` (instantiated) = `applyPicks cfg scene e dets (picksOfW winners cands nextId) st`,
   records in the same order, final counter = the model's `nextId`;
 * `tie_apply_model_batch`: the same for the loop in BatchSort's voting thread and `applyPicks` with `batchIds` (every candidate
-  consumes a counter value).
+  consumes a counter value);
+* `tie_apply_model_visual`: the same for `VisualSort::predict_with_scene` and `applyPicks` with `cfg.visual` (the winner's voting
+  type is written into the candidate before the merge; the gallery, the collected count and the feature history follow the model).
 
 So the control flow of the real loop — order of detections, when an id is drawn, which id a new track gets, that the record is
 read back from the stored track after the operation — is the model's, by proof; what the store operations do to a track is tied
@@ -357,5 +359,204 @@ example :
     (applyPicks cfg 0 5 [Det.simple 8 none, Det.simple 9 none] (picksOfW [(100, [1])] [(100, Det.simple 8 none), (101, Det.simple 9 none)] 1) st).map
       (fun p => (p.1.nextId, p.1.live.map (·.id), p.2.map (fun r => (r.id, r.len, r.tok)))) =
     some (2, [1, 2], [(1, 2, 8), (2, 1, 9)]) := by decide
+
+/-! ### VisualSort: the same statement with the appearance data (`cfg.visual`) -/
+
+/-- a VisualSORT candidate also carries the voting type written into it before the merge -/
+abbrev TTV := (Cand × Option Bool) ⊕ Trk
+
+def trackIdV : TTV → Nat := Sum.elim (fun c => c.1.1) (fun t => t.id)
+def setTrackIdV (x : TTV) (i : Nat) : TTV := match x with | .inl c => .inl ((i, c.1.2), c.2) | .inr t => .inr { t with id := i }
+def addVotingObsV (x : TTV) (vt : Option Bool) : Option TTV := match x with | .inl c => some (.inl (c.1, vt)) | .inr t => some (.inr t)
+
+/-- the track a detection starts (VisualSORT): its gallery holds the detection's observation -/
+def freshTrkV (scene e id : Nat) (d : Det) : Trk :=
+  { id := id, scene := scene, lastUpd := e, len := 1, custom := d.custom, obsH := [d.tok], visual := false,
+    gallery := [{ quality := d.quality, feat := d.feat, box := true }],
+    vcount := featCount [{ quality := d.quality, feat := d.feat, box := true }], featH := [d.feat] }
+
+/-- the track after a detection was merged into it with voting type `vis` (VisualSORT) -/
+def contTrkV (cfg : Cfg) (e : Nat) (t : Trk) (d : Det) (vis : Bool) : Trk :=
+  { t with lastUpd := e, len := t.len + 1, custom := d.custom, obsH := pushBounded t.obsH d.tok cfg.histLen, visual := vis,
+           gallery := galleryUpdate cfg.maxObs t.gallery { quality := d.quality, feat := if d.collectOk then d.feat else 0, box := true },
+           vcount := featCount (galleryUpdate cfg.maxObs t.gallery { quality := d.quality, feat := if d.collectOk then d.feat else 0, box := true }),
+           vt := some vis, featH := pushBounded t.featH d.feat cfg.histLen }
+
+def addTrackV (scene e : Nat) (st : St) (x : TTV) : Option St :=
+  match x with
+  | .inl c => some { st with live := st.live ++ [freshTrkV scene e c.1.1 c.1.2] }
+  | .inr t => some { st with live := st.live ++ [t] }
+
+def mergeExternalV (cfg : Cfg) (e : Nat) (st : St) (dest : Nat) (x : TTV) : Option St :=
+  match x with
+  | .inl c => (findLive st dest).map fun t =>
+      { st with live := st.live.map (fun x => if x.id == dest then contTrkV cfg e t c.1.2 (c.2.getD false) else x) }
+  | .inr _ => none
+
+def shardOfV (st : St) (_ : Nat) : List (Nat × TTV) := st.live.map (fun t => (t.id, Sum.inr t))
+def recOfV : TTV → Rec
+  | .inr t => recOfT t
+  | .inl c => { id := c.1.1, epoch := 0, scene := 0, len := 0, custom := c.1.2.custom, tok := c.1.2.tok, visual := false }
+
+def picksOfWV (winners : List (Nat × List (Nat × Bool))) : List Cand → Nat → List Pick
+  | [], _ => []
+  | c :: cs, ctr =>
+    match pickOfV winners c.1 with
+    | some (d, vis) => Pick.cont d vis :: picksOfWV winners cs ctr
+    | none => Pick.fresh (ctr + 1) :: picksOfWV winners cs (ctr + 1)
+
+theorem mapGet_updatedV (live : List Trk) (d : Nat) (t t' : Trk) (hid : t'.id = t.id)
+    (hf : live.find? (fun x => x.id == d) = some t) :
+    mapGet ((live.map (fun x => if x.id == d then t' else x)).map (fun u => (u.id, (Sum.inr u : TTV)))) d = some (Sum.inr t') := by
+  unfold mapGet
+  induction live with
+  | nil => simp at hf
+  | cons a rest ih =>
+    simp only [List.find?_cons] at hf
+    by_cases ha : (a.id == d) = true
+    · simp only [ha, Option.some.injEq] at hf
+      subst hf
+      simp only [List.map_cons, ha, ↓reduceIte, List.find?_cons, hid]
+      simp
+    · simp only [ha] at hf
+      simp only [List.map_cons, ha, Bool.false_eq_true, ↓reduceIte, List.find?_cons]
+      exact ih hf
+
+theorem mapGet_appendedV (live : List Trk) (k : Nat) (t' : Trk) (hid : t'.id = k) (hlt : ∀ u ∈ live, u.id < k) :
+    mapGet ((live ++ [t']).map (fun u => (u.id, (Sum.inr u : TTV)))) k = some (Sum.inr t') := by
+  unfold mapGet
+  induction live with
+  | nil => simp [hid]
+  | cons a rest ih =>
+    have ha : (a.id == k) = false := by
+      have := hlt a (List.mem_cons_self); simp; omega
+    simp only [List.cons_append, List.map_cons, List.find?_cons, ha]
+    exact ih (fun u hu => hlt u (List.mem_cons_of_mem _ hu))
+
+abbrev stepMV (cfg : Cfg) (scene e : Nat) (winners : List (Nat × List (Nat × Bool))) :=
+  stepV (T := TTV) (DB := St) (R := Rec) (V := Bool) trackIdV setTrackIdV id addVotingObsV (addTrackV scene e) (mergeExternalV cfg e)
+    shardOfV recOfV winners
+
+def contDbV (cfg : Cfg) (e : Nat) (db : St) (d : Nat) (t : Trk) (d' : Det) (vis : Bool) : St :=
+  { db with live := db.live.map (fun x => if x.id == d then contTrkV cfg e t d' vis else x) }
+def freshDbV (scene e : Nat) (db : St) (k : Nat) (d' : Det) : St :=
+  { db with live := db.live ++ [freshTrkV scene e k d'] }
+
+theorem stepV_cont (cfg : Cfg) (scene e : Nat) (winners : List (Nat × List (Nat × Bool))) (c : Cand) (d : Nat) (vis : Bool) (t : Trk)
+    (db : St) (ctr : Nat) (res : List Rec) (ids : List (Nat × Bool))
+    (hp : pickOfV winners c.1 = some (d, vis)) (hf : db.live.find? (fun x => x.id == d) = some t) :
+    stepMV cfg scene e winners ((ctr, db, res), ids) (Sum.inl (c, none)) =
+      some ((ctr, contDbV cfg e db d t c.2 vis, res ++ [recOfT (contTrkV cfg e t c.2 vis)]), ids ++ [(d, false)]) := by
+  simp only [stepMV, stepV, trackIdV, Sum.elim_inl, hp, addVotingObsV, Option.bind_some, mergeExternalV, findLive, hf, Option.map_some,
+    shardOfV, Option.getD_some]
+  rw [mapGet_updatedV db.live d t (contTrkV cfg e t c.2 vis) rfl hf]
+  rfl
+
+theorem stepV_cont_none (cfg : Cfg) (scene e : Nat) (winners : List (Nat × List (Nat × Bool))) (c : Cand) (d : Nat) (vis : Bool)
+    (db : St) (ctr : Nat) (res : List Rec) (ids : List (Nat × Bool))
+    (hp : pickOfV winners c.1 = some (d, vis)) (hf : db.live.find? (fun x => x.id == d) = none) :
+    stepMV cfg scene e winners ((ctr, db, res), ids) (Sum.inl (c, none)) = none := by
+  simp only [stepMV, stepV, trackIdV, Sum.elim_inl, hp, addVotingObsV, Option.bind_some, mergeExternalV, findLive, hf, Option.map_none,
+    Option.bind_none]
+
+theorem stepV_fresh (cfg : Cfg) (scene e : Nat) (winners : List (Nat × List (Nat × Bool))) (c : Cand)
+    (db : St) (ctr : Nat) (res : List Rec) (ids : List (Nat × Bool))
+    (hp : pickOfV winners c.1 = none) (hle : ∀ u ∈ db.live, u.id ≤ ctr) :
+    stepMV cfg scene e winners ((ctr, db, res), ids) (Sum.inl (c, none)) =
+      some ((ctr + 1, freshDbV scene e db (ctr + 1) c.2, res ++ [recOfT (freshTrkV scene e (ctr + 1) c.2)]), ids ++ [(ctr + 1, true)]) := by
+  simp only [stepMV, stepV, trackIdV, Sum.elim_inl, hp, id, setTrackIdV, addTrackV, Option.bind_some, shardOfV]
+  rw [mapGet_appendedV db.live (ctr + 1) (freshTrkV scene e (ctr + 1) c.2) rfl (fun u hu => Nat.lt_succ_of_le (hle u hu))]
+  rfl
+
+theorem applyPickV_cont (cfg : Cfg) (hb : cfg.batchIds = false) (hv : cfg.visual = true) (scene e : Nat) (db : St) (ctr : Nat) (d' : Det)
+    (d : Nat) (vis : Bool) (t : Trk) (hf : db.live.find? (fun x => x.id == d) = some t) :
+    applyPick cfg scene e { db with nextId := ctr } d' (Pick.cont d vis) =
+      some ({ contDbV cfg e db d t d' vis with nextId := ctr }, { recOfT (contTrkV cfg e t d' vis) with visual := vis }) := by
+  have hid : t.id = d := by simpa using List.find?_some hf
+  simp only [applyPick, hb, hv, Bool.false_eq_true, ↓reduceIte, findLive, hf, contDbV, contTrkV, recOfT, pushBounded_last, hid,
+    Option.getD_some]
+
+theorem applyPickV_cont_none (cfg : Cfg) (hb : cfg.batchIds = false) (scene e : Nat) (db : St) (ctr : Nat) (d' : Det)
+    (d : Nat) (vis : Bool) (hf : db.live.find? (fun x => x.id == d) = none) :
+    applyPick cfg scene e { db with nextId := ctr } d' (Pick.cont d vis) = none := by
+  simp only [applyPick, hb, Bool.false_eq_true, ↓reduceIte, findLive, hf]
+
+theorem applyPickV_fresh (cfg : Cfg) (hb : cfg.batchIds = false) (hv : cfg.visual = true) (scene e : Nat) (db : St) (ctr : Nat) (d' : Det) (k : Nat) :
+    applyPick cfg scene e { db with nextId := ctr } d' (Pick.fresh k) =
+      some ({ freshDbV scene e db k d' with nextId := ctr + 1 }, recOfT (freshTrkV scene e k d')) := by
+  simp [applyPick, hb, hv, freshDbV, freshTrkV, recOfT]
+
+theorem recOfT_contTrkV_visual (cfg : Cfg) (e : Nat) (t : Trk) (d : Det) (vis : Bool) :
+    ({ recOfT (contTrkV cfg e t d vis) with visual := vis } : Rec) = recOfT (contTrkV cfg e t d vis) := rfl
+
+theorem runG_applyPicksV (cfg : Cfg) (hb : cfg.batchIds = false) (hv : cfg.visual = true) (scene e : Nat)
+    (winners : List (Nat × List (Nat × Bool))) (cands : List Cand) :
+    ∀ (db : St) (ctr : Nat) (res : List Rec) (ids : List (Nat × Bool)), (∀ t ∈ db.live, t.id ≤ ctr) →
+    (runG (stepMV cfg scene e winners) (cands.map (fun c => Sum.inl (c, none))) ((ctr, db, res), ids)).map
+        (fun r => (({ r.1.2.1 with nextId := r.1.1 } : St), r.1.2.2)) =
+    (applyPicks cfg scene e (cands.map (·.2)) (picksOfWV winners cands ctr) { db with nextId := ctr }).map
+      (fun p => (p.1, res ++ p.2)) := by
+  induction cands with
+  | nil => intro db ctr res ids _; simp [runG, applyPicks, picksOfWV]
+  | cons c cs ih =>
+    intro db ctr res ids hle
+    simp only [runG, List.map_cons, picksOfWV]
+    cases hp : pickOfV winners c.1 with
+    | some dv =>
+      obtain ⟨d, vis⟩ := dv
+      simp only [applyPicks]
+      cases hf : db.live.find? (fun x => x.id == d) with
+      | none =>
+        rw [stepV_cont_none cfg scene e winners c d vis db ctr res ids hp hf, applyPickV_cont_none cfg hb scene e db ctr c.2 d vis hf]
+        rfl
+      | some t =>
+        have hid : t.id = d := by simpa using List.find?_some hf
+        rw [stepV_cont cfg scene e winners c d vis t db ctr res ids hp hf, applyPickV_cont cfg hb hv scene e db ctr c.2 d vis t hf,
+          Option.bind_some, recOfT_contTrkV_visual]
+        have hle' : ∀ u ∈ (contDbV cfg e db d t c.2 vis).live, u.id ≤ ctr := by
+          intro u hu
+          simp only [contDbV, List.mem_map] at hu
+          obtain ⟨x, hx, rfl⟩ := hu
+          by_cases hxd : (x.id == d) = true
+          · simp only [hxd, ↓reduceIte, contTrkV]; exact hid ▸ hle t (List.mem_of_find?_eq_some hf)
+          · simp only [hxd, Bool.false_eq_true, ↓reduceIte]; exact hle x hx
+        rw [ih _ ctr _ _ hle']
+        simp only []
+        cases applyPicks cfg scene e (cs.map (·.2)) (picksOfWV winners cs ctr) { contDbV cfg e db d t c.2 vis with nextId := ctr } with
+        | none => rfl
+        | some r => simp [List.append_assoc]
+    | none =>
+      simp only [applyPicks]
+      rw [stepV_fresh cfg scene e winners c db ctr res ids hp hle, applyPickV_fresh cfg hb hv scene e db ctr c.2 (ctr + 1),
+        Option.bind_some]
+      have hle' : ∀ u ∈ (freshDbV scene e db (ctr + 1) c.2).live, u.id ≤ ctr + 1 := by
+        intro u hu
+        simp only [freshDbV, List.mem_append, List.mem_singleton] at hu
+        rcases hu with hu | rfl
+        · exact Nat.le_succ_of_le (hle u hu)
+        · exact Nat.le_refl _
+      rw [ih _ (ctr + 1) _ _ hle']
+      simp only []
+      cases applyPicks cfg scene e (cs.map (·.2)) (picksOfWV winners cs (ctr + 1)) { freshDbV scene e db (ctr + 1) c.2 with nextId := ctr + 1 } with
+      | none => rfl
+      | some r => simp [List.append_assoc]
+
+/-- **`VisualSort::predict_with_scene`'s apply loop, on the model store, is `applyPicks`** with `cfg.visual`: the voting type of the
+winner is written into the record and the track, the gallery and the feature history are updated as the model says -/
+theorem tie_apply_model_visual (cfg : Cfg) (hb : cfg.batchIds = false) (hv : cfg.visual = true) (scene e : Nat)
+    (winners : List (Nat × List (Nat × Bool))) (cands : List Cand) (st : St) (hle : ∀ t ∈ st.live, t.id ≤ st.nextId) :
+    (visual_apply_winners (T := TTV) (DB := St) (R := Rec) (V := Bool) trackIdV setTrackIdV id addVotingObsV (addTrackV scene e)
+        (mergeExternalV cfg e) shardOfV recOfV winners (cands.map (fun c => Sum.inl (c, none))) st.nextId st).map
+        (fun r => (({ r.2.1 with nextId := r.1 } : St), r.2.2)) =
+      applyPicks cfg scene e (cands.map (·.2)) (picksOfWV winners cands st.nextId) st := by
+  rw [tie_visual_apply_winners]
+  have := runG_applyPicksV cfg hb hv scene e winners cands st st.nextId [] [] hle
+  simp only [Option.map_map] at this ⊢
+  rw [show ((fun r : Nat × St × List Rec => (({ r.2.1 with nextId := r.1 } : St), r.2.2)) ∘ fun x : RunSt St Rec => x.1) =
+      (fun r : RunSt St Rec => (({ r.1.2.1 with nextId := r.1.1 } : St), r.1.2.2)) from rfl]
+  rw [this]
+  cases applyPicks cfg scene e (cands.map (·.2)) (picksOfWV winners cands st.nextId) st with
+  | none => rfl
+  | some p => simp
 
 end SimVerif.Tie
